@@ -23,7 +23,7 @@ RULE = ('R-produced messages over editions 2/3/4 x section 2 present/absent x ra
         'surplus octets; every parameter name of definitions/*.json x {implicit, explicit section index 0..6, 9}; '
         'malformed expressions; info-only vs full; info-only on noise-filled data sections; info-only stream scan '
         'with declared total length > encoded length.  Non-trivial = name occurring in >= 2 sections or an explicit '
-        'index; distinct by SHA-1 of (message bytes, expression)')
+        'index; distinct by SHA-1 of (message bytes, expression); section indices up to 1000; info-only decodes after lenient full decodes on the same decoder and together with ignore_value_expectation; `pybufrkit query %expr`')
 ASSUMPTIONS = ['R\'s section layouts (mon/refbufr/frame.py) are the FM-94 octet layouts under the repository\'s parameter names',
                'the value of %template_data is not compared (it is the decoded data object)',
                'the empty expression and expressions with more than one dot are outside the stated space (recorded, not judged)',
